@@ -75,6 +75,8 @@ ValIn(cs, kk, key, w, salt) ==
       [] cs.fam = "pairs" -> ValStd(w, kk - PairN, salt)
       [] cs.fam = "low8" /\ kk <= 256 -> (IF g = 1 THEN WithLowByte(rnd, kk - 1) ELSE ValStd(w, kk, salt))
       [] cs.fam = "low8" -> ValStd(w, kk - 256, salt)
+      [] cs.fam = "low5" /\ kk <= 32 -> (IF g = 1 THEN WithLowByte(rnd, kk - 1) ELSE ValStd(w, kk, salt))
+      [] cs.fam = "low5" -> ValStd(w, kk - 32, salt)
       [] OTHER -> ValStd(w, kk, salt)
 
 ValFor(w, kk, salt) == ValStd(w, kk, salt)
@@ -171,36 +173,49 @@ RetAgree(cs, cst, ist) ==
 
 HasX(cs) == \E i \in 1..Len(cs.regs) : cs.regs[i].kind = "isa" /\ cs.regs[i].acc \in {"x", "y", "z"}
 
-\* verdict of one observed artefact o of case cs on input kk (s0: input state, ref: C result)
-CheckOne(cs, o, s0, ref, kk) ==
-    IF ref.unspec THEN [r |-> "unspec", why |-> ref.why]
-    ELSE IF ref.diverged THEN [r |-> "diverged"]
-    ELSE
-    LET ist == RunObs(cs, o, s0, kk, "exec")
-    IN  IF Agree(cs, ref, ist) /\ RetAgree(cs, ref, ist) THEN [r |-> "agree", model |-> "exec"]
-        ELSE
-        LET istb == RunObs(cs, o, s0, kk, "build")
-        IN  IF HasX(cs) /\ Agree(cs, ref, istb) /\ RetAgree(cs, ref, istb) THEN [r |-> "agree", model |-> "build"]
-            ELSE
-            LET expl == {d \in 1..Len(DevSets) :
-                            LET dref == RunSrc(cs, s0, kk, {DevSets[d][j] : j \in 1..Len(DevSets[d])})
-                            IN  ~dref.unspec /\ ~dref.diverged /\ Agree(cs, dref, ist) /\ RetAgree(cs, dref, ist)}
-            IN  IF expl # {} THEN [r |-> "deviation", dev |-> DevSets[CHOOSE d \in expl : \A d2 \in expl : d <= d2]]
-                ELSE [r |-> "mismatch", diff |-> Diff(cs, ref, ist), ret |-> RetAgree(cs, ref, ist),
-                      shapes |-> ShapesOf(cs.src.body)]
+\* verdict of one observed artefact o of case cs on input kk
+\* (s0: input state, ref: C result, ist: IL result under M_exec, ist1: IL result of the first layout)
+ILSame(a, b) == a.stuck = b.stuck /\ Visible(a) = Visible(b) /\ a.loc = b.loc
 
+CheckOne(cs, o, s0, ref, ist, ist1, kk) ==
+    LET same == ILSame(ist, ist1) IN
+    IF ref.unspec THEN [r |-> "unspec", why |-> ref.why, same |-> same]
+    ELSE IF ref.diverged THEN [r |-> "diverged", same |-> same]
+    ELSE
+    IF Agree(cs, ref, ist) /\ RetAgree(cs, ref, ist) THEN [r |-> "agree", model |-> "exec", same |-> same]
+    ELSE
+    LET istb == RunObs(cs, o, s0, kk, "build")
+    IN  IF HasX(cs) /\ Agree(cs, ref, istb) /\ RetAgree(cs, ref, istb) THEN [r |-> "agree", model |-> "build", same |-> same]
+        ELSE
+        LET expl == {d \in 1..Len(DevSets) :
+                        LET dref == RunSrc(cs, s0, kk, {DevSets[d][j] : j \in 1..Len(DevSets[d])})
+                        IN  ~dref.unspec /\ ~dref.diverged /\ Agree(cs, dref, ist) /\ RetAgree(cs, dref, ist)}
+        IN  IF expl # {} THEN [r |-> "deviation", dev |-> DevSets[CHOOSE d \in expl : \A d2 \in expl : d <= d2], same |-> same]
+            ELSE [r |-> "mismatch", diff |-> Diff(cs, ref, ist), ret |-> RetAgree(cs, ref, ist),
+                  shapes |-> ShapesOf(cs.src.body), same |-> same]
+
+\* (No bound variable may enclose the evaluation: TLC does not cache lazily evaluated LET definitions /
+\* operator arguments inside quantifier, set- or function-constructor bodies, so s0, ref and the IL
+\* results would be recomputed at every use.  Cases have one or two observed artefacts.)
 Check(ci, kk) ==
     LET cs == Cases[ci]
         s0 == InputState(cs, kk, "exec", {})
         ref == RunSrc(cs, s0, kk, {})
-    IN  [i \in 1..Len(cs.obs) |-> CheckOne(cs, cs.obs[i], s0, ref, kk)]
+        ist1 == RunObs(cs, cs.obs[1], s0, kk, "exec")
+    IN  IF Len(cs.obs) = 1 THEN << CheckOne(cs, cs.obs[1], s0, ref, ist1, ist1, kk) >>
+        ELSE LET ist2 == RunObs(cs, cs.obs[2], s0, kk, "exec")
+                 \* C16: both layouts report the same attribute set
+                 metaSame == ("meta" \in DOMAIN cs.obs[1] /\ "meta" \in DOMAIN cs.obs[2]) =>
+                                {cs.obs[1].meta[j] : j \in 1..Len(cs.obs[1].meta)} = {cs.obs[2].meta[j] : j \in 1..Len(cs.obs[2].meta)}
+                 v2 == CheckOne(cs, cs.obs[2], s0, ref, ist2, ist1, kk)
+             IN  << CheckOne(cs, cs.obs[1], s0, ref, ist1, ist1, kk), [v2 EXCEPT !.same = v2.same /\ metaSame] >>
 
 \* One line per (case, input) on which some artefact does not simply agree.  The harness classifies
 \* them (listed finding / violation); TLC's own INVARIANT is used only in replay mode, because
 \* reporting thousands of invariant violations serialises the workers on TLC's trace printer.
 Brief(v) == v
 Report(ci, kk, v) ==
-    IF \A i \in 1..Len(v) : v[i].r = "agree" /\ v[i].model = "exec" THEN TRUE
+    IF \A i \in 1..Len(v) : v[i].r = "agree" /\ v[i].model = "exec" /\ v[i].same THEN TRUE
     ELSE PrintT("TVREPORT " \o ToJson([id |-> Cases[ci].id, k |-> kk, v |-> [i \in 1..Len(v) |-> Brief(v[i])]]))
 
 Init == c \in 1..Len(Cases) /\ k \in 1..Cases[c].nin /\ verdict = <<>>
@@ -211,4 +226,5 @@ Spec == Init /\ [][Next]_vars
 
 \* the property: no observed artefact disagrees with its source on any input of the family
 NoMismatch == \A i \in 1..Len(verdict) : verdict[i].r # "mismatch"
+LayoutsAgree == \A i \in 1..Len(verdict) : verdict[i].same
 =============================================================================
